@@ -420,9 +420,10 @@ def check_property(pid, tier="quick", seed=0, manifest_level="proof", jobs=None,
         bq = ctx.Queue()
         bproc = ctx.Process(target=_run_bounded, args=(pid, tier, seed, bq))
         bproc.start()
-    results = run_deductive(pid, tier, active_known, jobs, only)
+    bounded_only = bool(os.environ.get("PYVC_BOUNDED_ONLY"))  # developer aid (never --no-write off): the stand-in alone, e.g. to try other seeds
+    results = [] if bounded_only else run_deductive(pid, tier, active_known, jobs, only)
     load_contracts()
-    xres = run_xcheck(pid, tier, seed, jobs) if not only else {}
+    xres = run_xcheck(pid, tier, seed, jobs) if not only and not bounded_only else {}
     n_obl = n_dis = 0
     backends = {}
     solver_time = 0.0
@@ -523,6 +524,8 @@ def check_property(pid, tier="quick", seed=0, manifest_level="proof", jobs=None,
     checker_broken = None
     if results and n_obl == 0 and not not_generated:
         checker_broken = "zero obligations generated"
+    if bounded_only and write:
+        checker_broken = "PYVC_BOUNDED_ONLY is a developer aid: use it with --no-write"
     all_dis = n_obl > 0 and n_dis == n_obl and not not_generated
     level = manifest_level if (manifest_level != "proof" or all_dis or known_hits) else "other"
     if manifest_level == "proof" and (undecided or not_generated):
